@@ -2,6 +2,8 @@
 //! real `#[endpoint]` / `#[channel]` macros and report what they observe
 //! through the server's private context.
 
+pub mod echo;
+pub mod sink;
 pub mod work;
 
 use crate::plan::{ApiKind, ServerPlan};
@@ -74,6 +76,18 @@ pub fn build_api(sp: &ServerPlan) -> ApiDescription<SimCtx> {
     let mut api = ApiDescription::new();
     match sp.api {
         ApiKind::Work => work::register(&mut api),
+        ApiKind::Echo => {
+            work::register(&mut api);
+            echo::register(&mut api, false);
+        }
+        ApiKind::EchoVersioned => {
+            work::register(&mut api);
+            echo::register(&mut api, true);
+        }
+        ApiKind::Sink => {
+            work::register(&mut api);
+            sink::register(&mut api, sp.rt_override);
+        }
         _ => {
             work::register(&mut api);
         }
@@ -81,6 +95,16 @@ pub fn build_api(sp: &ServerPlan) -> ApiDescription<SimCtx> {
     api
 }
 
-pub fn version_policy(_sp: &ServerPlan) -> Option<dropshot::VersionPolicy> {
-    None
+pub fn version_policy(sp: &ServerPlan) -> Option<dropshot::VersionPolicy> {
+    match sp.api {
+        ApiKind::EchoVersioned | ApiKind::ErrVersioned => {
+            Some(dropshot::VersionPolicy::Dynamic(Box::new(
+                dropshot::ClientSpecifiesVersionInHeader::new(
+                    http::HeaderName::from_static("x-api-version"),
+                    semver::Version::new(9, 9, 9),
+                ),
+            )))
+        }
+        _ => None,
+    }
 }
